@@ -5,6 +5,10 @@ ROOT = os.path.dirname(os.path.dirname(os.path.abspath(__file__)))
 
 CLAIMED = {
  # id: (category, text, note, technique, design_ref)
+ "C14": ("fault_enumeration",
+         "Fault injection on the raw (unframed) disk and wire between a real Writer node and the real readers: for PRNG-drawn valid images of 19 family/variant kinds the injector enumerates truncation at every byte offset, every single-bit flip and 17 boundary byte values over the header, boundary values in every aligned u16/u32/u64 header field, and samples multi-fault combinations of torn writes, zeroed/stale/duplicated/swapped sectors, extension, splices, random buffers and misrouting to other families' readers; every damaged buffer goes to every deserialize entry point (and CpcWrapper::new) in supervised child processes under an allocation-accounting allocator, in both build profiles; the call must end Ok or Err - no panic, abort, hang, or allocation out of proportion to the input - and every Ok value must survive the recovery workload (accessors, 64 updates, merges both ways, to_sketch, re-serialize, re-deserialize).",
+         "Relaxed oracle (only here): values are never compared. Budget 64*len + 64 KiB, with configuration-implied sizes exempt up to the 1 GiB hard cap. Seven narrowly identified abort classes (empty-form Bloom / Count-Min images that encode a huge configuration) are recorded findings; everything else found was repaired in /repo (see known_findings.txt).",
+         "deterministic simulation with fault injection: enumerated + sampled storage/transport corruption of valid images, allocator seam, supervised children", "DESIGN.md §4 C14"),
  "C17": ("exploration",
          "The standard global invariant of deterministic simulation: every simulated scenario of the other claimed properties is executed, valid operations only, in both build profiles (release; armed = debug-assertions + overflow-checks on) with every library call under a panic guard, plus a dedicated crash/restart scenario pinned to the documented configuration extremes (HLL lg_k 4/21, CPC 4/16/21, theta 5, t-digest k 10, Frequent Items map 8, Bloom 1 bit/1 hash, Count-Min 1x3 with narrow counters) whose twin comparison stays armed so that release-profile wrap-around surfaces as a mismatch; any panic raised inside the library, identified by source location and statement, is the violation.",
          "Trusted: the preconditions of DESIGN.md Appendix C define valid use. Model mismatches found by the re-run scenarios belong to their own property; only panics/aborts count for those parts.",
